@@ -326,6 +326,11 @@ def check_uci(pid, tier, seed):
         ["position term", "go", "ucinewgame", "position open", "go", "fin", "quit"], ["position term", "go", "stop", "ucinewgame", "go", "position open", "go", "fin", "quit"],
         ["position term", "go", "position open2", "ucinewgame", "position open", "go", "fin", "quit"],
         ["position open", "go", "isready", "isready", "stop", "stop", "go", "quit"],
+        # the first go of the new game is answered from the book (no search starts): the new game still begins with the next real search
+        ["position open", "go", "stop", "ucinewgame", "position book", "go", "position open", "go", "fin", "quit"],
+        ["position open", "go", "fin", "position open2", "ucinewgame", "position book", "go", "go", "position open2", "go", "stop", "quit"],
+        ["position open", "go", "fin", "position book", "go", "ucinewgame", "go", "position same", "go", "position open", "go", "fin", "quit"],
+        ["position term", "go", "position open", "go", "stop", "ucinewgame", "position book", "go", "position term", "go", "position open", "go", "fin", "quit"],
     ]
     # isready during a long search: readyok must come before that search's bestmove
     for j in range(4 if quick else 40):
